@@ -377,6 +377,7 @@ func judgeCloseError(k *vlib.Case, lg *log, cerr error, dumps []string, label fu
 	if !corroborated {
 		k.C.Inconclusive(1)
 		k.Logf("Close returned %q but the stall was not corroborated: %v", cerr, why)
+		k.C.Note("uncorroborated_close_error", fmt.Sprintf("%s: %v; %v", k.ID, cerr, why))
 		return
 	}
 	// discriminating history features: the last publish attempt before Close
